@@ -1,6 +1,8 @@
 // ===================== TRUSTED: std functions vstd does not specify (std semantics, assumed) =====================
 pub open spec fn str_bytes(s: Seq<char>) -> Seq<u8> { vstd::utf8::encode_utf8(s) }
 
+pub assume_specification [String::with_capacity] (n: usize) -> (r: String)
+    ensures r@ == Seq::<char>::empty();
 pub assume_specification [String::as_bytes] (s: &String) -> (r: &[u8])
     ensures r@ == str_bytes(s@);
 pub assume_specification<T, const N: usize> [<[T; N] as AsRef<[T]>>::as_ref] (a: &[T; N]) -> (r: &[T])
@@ -65,3 +67,4 @@ pub proof fn lemma_str_bytes_inj(a: Seq<char>, b: Seq<char>)
     vstd::utf8::encode_utf8_decode_utf8(a);
     vstd::utf8::encode_utf8_decode_utf8(b);
 }
+
